@@ -1362,9 +1362,37 @@ func (p *Printer) Count(ts ...*Term) {
 	}
 }
 
-func (p *Printer) str(t *Term) string {
-	if n, ok := p.names[t]; ok {
+type letScope struct {
+	local map[*Term]string
+	lets  []string
+}
+
+// strIn prints a term inside a quantifier body: terms without bound variables go through the global sharing, shared
+// terms with bound variables are named by a let of the enclosing quantifier.
+func (p *Printer) strIn(t *Term, sc *letScope) string {
+	if !t.bound {
+		return p.str(t)
+	}
+	if n, ok := sc.local[t]; ok {
 		return n
+	}
+	if t.Op == "forall" || t.Op == "exists" {
+		return p.render(t, nil) // its own scope
+	}
+	s := p.render(t, func(a *Term) string { return p.strIn(a, sc) })
+	if p.refs[t] > 1 && len(t.Args) > 0 {
+		p.n++
+		name := fmt.Sprintf("b!%d", p.n)
+		sc.lets = append(sc.lets, "("+name+" "+s+")")
+		sc.local[t] = name
+		return name
+	}
+	return s
+}
+
+func (p *Printer) render(t *Term, rec func(*Term) string) string {
+	if rec == nil {
+		rec = p.str
 	}
 	var s string
 	switch t.Op {
@@ -1387,32 +1415,50 @@ func (p *Printer) str(t *Term) string {
 		}
 		parts := []string{smtName(t.Name)}
 		for _, a := range t.Args {
-			parts = append(parts, p.str(a))
+			parts = append(parts, rec(a))
 		}
 		s = "(" + strings.Join(parts, " ") + ")"
 	case "extract":
-		s = fmt.Sprintf("((_ extract %d %d) %s)", t.P[0], t.P[1], p.str(t.Args[0]))
+		s = fmt.Sprintf("((_ extract %d %d) %s)", t.P[0], t.P[1], rec(t.Args[0]))
 	case "zero_extend", "sign_extend":
-		s = fmt.Sprintf("((_ %s %d) %s)", t.Op, t.P[0], p.str(t.Args[0]))
+		s = fmt.Sprintf("((_ %s %d) %s)", t.Op, t.P[0], rec(t.Args[0]))
 	case "rotl":
-		s = fmt.Sprintf("((_ rotate_left %d) %s)", t.P[0], p.str(t.Args[0]))
+		s = fmt.Sprintf("((_ rotate_left %d) %s)", t.P[0], rec(t.Args[0]))
 	case "int2bv":
-		s = fmt.Sprintf("((_ int2bv %d) %s)", t.P[0], p.str(t.Args[0]))
+		s = fmt.Sprintf("((_ int2bv %d) %s)", t.P[0], rec(t.Args[0]))
 	case "constarr":
-		s = fmt.Sprintf("((as const %s) %s)", t.S.str, p.str(t.Args[0]))
+		s = fmt.Sprintf("((as const %s) %s)", t.S.str, rec(t.Args[0]))
 	case "forall", "exists":
 		n := len(t.Args) - 1
 		var vs []string
 		for _, v := range t.Args[:n] {
 			vs = append(vs, "("+smtName(v.Name)+" "+v.S.str+")")
 		}
-		s = fmt.Sprintf("(%s (%s) %s)", t.Op, strings.Join(vs, " "), p.str(t.Args[n]))
+		// subterms of the body that mention bound variables cannot be hoisted to define-funs; shared ones are bound
+		// by nested lets inside the quantifier so that the text stays linear in the size of the term DAG
+		sc := &letScope{local: map[*Term]string{}}
+		b := p.strIn(t.Args[n], sc)
+		for i := len(sc.lets) - 1; i >= 0; i-- {
+			b = "(let (" + sc.lets[i] + ") " + b + ")"
+		}
+		s = fmt.Sprintf("(%s (%s) %s)", t.Op, strings.Join(vs, " "), b)
 	default:
 		parts := []string{t.Op}
 		for _, a := range t.Args {
-			parts = append(parts, p.str(a))
+			parts = append(parts, rec(a))
 		}
 		s = "(" + strings.Join(parts, " ") + ")"
+	}
+	return s
+}
+
+func (p *Printer) str(t *Term) string {
+	if n, ok := p.names[t]; ok {
+		return n
+	}
+	s := p.render(t, p.str)
+	if len(t.Args) == 0 {
+		return s
 	}
 	if p.refs[t] > 1 && !t.bound && len(t.Args) > 0 {
 		p.n++
@@ -1441,9 +1487,41 @@ func (p *Printer) Emit(asserts []*Term) (decls string, body string) {
 }
 
 // Short renders a term for diagnostics (truncated).
+// Short: the first ~200 characters of the term's text.  The term is a DAG; it is printed as a tree only as far as the
+// budget reaches (printing it in full without sharing is exponential).
 func (t *Term) Short() string {
-	p := NewPrinter()
-	s := p.str(t)
+	var b strings.Builder
+	var rec func(t *Term)
+	rec = func(t *Term) {
+		if b.Len() > 200 {
+			return
+		}
+		switch t.Op {
+		case "true", "false":
+			b.WriteString(t.Op)
+		case "const", "int":
+			b.WriteString(constStr(t))
+		case "sym", "bound":
+			b.WriteString(t.Name)
+		default:
+			b.WriteString("(")
+			if t.Op == "uf" {
+				b.WriteString(t.Name)
+			} else {
+				b.WriteString(t.Op)
+			}
+			for _, a := range t.Args {
+				if b.Len() > 200 {
+					break
+				}
+				b.WriteString(" ")
+				rec(a)
+			}
+			b.WriteString(")")
+		}
+	}
+	rec(t)
+	s := b.String()
 	if len(s) > 200 {
 		s = s[:200] + "..."
 	}
